@@ -205,6 +205,9 @@ def inflate_dict(ck, P):
 def run(ck):
     P = prog("K1")
     ck.configs.add("K1")
+    # round 10: a dictionary longer than the window keeps its tail in every branch of Window::extend
+    from . import c08 as _c08s
+    _c08s.extend_siblings(ck, P)
     from .. import guards as _gas
     _gas.arm_store_before_suspend(ck, P, fields=("adler", "gzindex"))
     # the dictionary id is read across input chunks: a suspended DictId/Dict arm resumes where it stopped
